@@ -65,7 +65,7 @@ def present (s : St) (k : String) : Bool := hasVar s k || (k == "TFLAG" && s.tfl
 listed names that exist plus the new ones. -/
 def add2Varlist (s : St) (keys : List String) : St :=
   let kept := s.varlist.filter (present s)
-  let new := keys.filter (fun k => !(kept.contains k) && k != "TFLAG" && k != "ETFLAG")
+  let new := keys.filter (fun k => decide (k.length ≤ 16) && !(kept.contains k) && k != "TFLAG" && k != "ETFLAG")
   { s with varlist := s.varlist ++ new, nvars := kept.length + new.length }
 
 /-- `createVariable` / `copyVariable` of a data variable (both end in `_add2Varlist([name])`) -/
